@@ -122,10 +122,13 @@ TDesc == IsEvent("Desc") /\ DescOk(Ev) /\ UNCHANGED vars2
 
 \* ---------------------------------------------------------------- lists (C02) and list-level routes of C01
 Ret == last'.ret = Ev.ret
+IsOwn == "own" \in DOMAIN Ev /\ Ev.own = 1
+\* the owning object returns the flag only (the changed positions show in its notification, see FiredOk)
+RetBulk == IF IsOwn /\ Ev.e = "LMatchValues" THEN last'.ret[1] = Ev.ret[1] ELSE Ret
 \* notifications of the owning object (fireParameterChanged): none when the call raises; the changed / given names otherwise
 NamesAt(M, js) == [i \in DOMAIN js |-> name[list[M][js[i]]]]
 FiredOk ==
-  ("own" \in DOMAIN Ev /\ Ev.own = 1) =>
+  IsOwn =>
      IF Ev.r # "ok" THEN Ev.fired = <<>>
      ELSE CASE Ev.e = "LMatchValues" -> Ev.fired = (IF Differs(Ev.L, Ev.M) = <<>> THEN <<>> ELSE <<NamesAt(Ev.M, Differs(Ev.L, Ev.M))>>)
             [] Ev.e \in {"LSetValues", "LSetAllValues"} -> Ev.fired = <<[i \in DOMAIN list[Ev.M] |-> name[list[Ev.M][i]]]>>
@@ -146,7 +149,7 @@ TLSeq(e, mode) == /\ IsEvent(e) /\ Ev.L \in Lists
                   /\ Out /\ ProjOk
 TLSetValue == IsEvent("LSetValue") /\ FiredOk /\ LSetValue(Ev.L, Ev.n, Ev.v) /\ Out /\ ProjOk
 TLSetConstraint == IsEvent("LSetConstraint") /\ LSetConstraint(Ev.L, Ev.n, Ev.c) /\ Out /\ ProjOk
-TLBulk(e, kind) == IsEvent(e) /\ FiredOk /\ LBulk(Ev.L, Ev.M, kind) /\ Out /\ (Ev.r = "ok" => Ret) /\ ProjOk
+TLBulk(e, kind) == IsEvent(e) /\ FiredOk /\ LBulk(Ev.L, Ev.M, kind) /\ Out /\ (Ev.r = "ok" => RetBulk) /\ ProjOk
 TLWhole(e, kind) == IsEvent(e) /\ LWhole(Ev.L, Ev.M, kind) /\ Out /\ ProjOk
 TLDelName  == IsEvent("LDelName") /\ LDelName(Ev.L, Ev.n) /\ Out /\ ProjOk
 TLDelNames == IsEvent("LDelNames") /\ LDelNames(Ev.L, Ev.ns, Ev.must) /\ Out /\ ProjOk
